@@ -213,6 +213,76 @@ func runC42(c *Ctx) {
 	}
 	c.Floor(r3, 1)
 
+	// ancestorsIndex is the set of commits a walk from the starting commit yields, the starting commit included: when
+	// the two arguments of MergeBase are ancestor and descendant with timestamps the wrong way round, the "newer" one is
+	// the ancestor and must be found in its own index. The callback that fills the index stores the hash of the commit
+	// it is handed on every path that lets the walk go on — or the function stores the starting commit's hash itself.
+	const r4 = "index-holds-every-yielded-commit"
+	if ai := c.MustFunc(r4, objShort+".ancestorsIndex"); ai != nil {
+		info := ai.Pkg.TypesInfo
+		c.Analysed(ai)
+		params := paramObjs(info, ai.Decl)
+		var lit *ast.FuncLit
+		ast.Inspect(ai.Decl.Body, func(n ast.Node) bool {
+			if fl, ok := n.(*ast.FuncLit); ok && lit == nil && fl.Type.Params != nil && len(fl.Type.Params.List) == 1 {
+				lit = fl
+			}
+			return true
+		})
+		if lit == nil || len(lit.Type.Params.List[0].Names) == 0 {
+			c.Hold(r4, ai.Name(), ai.Decl.Pos(), "not decided: no walk callback with one parameter")
+		} else {
+			cp := info.Defs[lit.Type.Params.List[0].Names[0]]
+			storesHashOf := func(nd ast.Node, o types.Object) bool {
+				found := false
+				ast.Inspect(nd, func(m ast.Node) bool {
+					as, ok := m.(*ast.AssignStmt)
+					if !ok {
+						return true
+					}
+					for _, l := range as.Lhs {
+						ix, ok := unparen(l).(*ast.IndexExpr)
+						if !ok {
+							continue
+						}
+						if _, isMap := info.Types[ix.X].Type.Underlying().(*types.Map); !isMap {
+							continue
+						}
+						if sel, ok := unparen(ix.Index).(*ast.SelectorExpr); ok && sel.Sel.Name == "Hash" && objOf(info, sel.X) == o {
+							found = true
+						}
+					}
+					return !found
+				})
+				return found
+			}
+			f := p.NewFlow(info, lit.Body)
+			h := f.Search(SearchOpts{Starts: []Loc{f.Entry()}, Barrier: func(nd ast.Node) bool { return storesHashOf(nd, cp) }, Sink: func(nd ast.Node) bool {
+				r, ok := nd.(*ast.ReturnStmt)
+				return ok && len(r.Results) == 1 && isNil(info, r.Results[0])
+			}})
+			startStored := false
+			if len(params) >= 2 {
+				for _, po := range params {
+					// stored outside the callback
+					ast.Inspect(ai.Decl.Body, func(m ast.Node) bool {
+						if m == ast.Node(lit) {
+							return false
+						}
+						if st, ok := m.(ast.Stmt); ok && storesHashOf(st, po) {
+							startStored = true
+						}
+						return true
+					})
+				}
+			}
+			ok := h == nil || startStored
+			c.Check(ok, r4, ai.Name()+":callback", lit.Pos(), orStr(ifStr(!ok, "the walk can go on past a commit without that commit's own hash having been entered into the index (and the starting commit is not entered separately): the starting commit is missing from its own history, so a descendant with an older timestamp walks through it without recognising it and MergeBase answers with its parents"),
+				"every commit the walk yields is entered into the index"))
+		}
+	}
+	c.Floor(r4, 1)
+
 	const r2 = "ancestor-by-hash"
 	hashT := p.lookupType("plumbing", "Hash")
 	for _, n := range []string{objShort + ".(*Commit).IsAncestor", "git.isFastForward"} {
